@@ -293,15 +293,30 @@ def run_wfmod(drv, case):
         fails = []
         if not (0 <= start <= tr_buf and 0 <= end <= tr_buf):
             fails.append(Fail("buffers-range", f"modulation buffers ({start},{end}) outside [0, {tr_buf}]"))
-        if eom:
-            return fails, None, True       # modulated_samples trims with the channel's rise time: std mode only
-        out = real_arr(w.modulated_samples(ch))
+        # the documented trimming, in the mode asked for: buffers and rise time of the EOM when eom=True
+        tr = tr_buf
+        out = real_arr(w.modulated_samples(ch, eom=eom))
+        x = W16.arr(w)
+        key = dict(eom=bool(eom))
+        # property level, independent of the helpers: the output extends the signal (never shorter than the
+        # input, at most one rise time more at each end) and keeps its integral up to what the buffers may
+        # drop (samples within 0.01 of zero, at most 2 rise times of them)
+        if not (w.duration <= len(out) <= w.duration + 2 * tr):
+            fails.append(Fail("modulated-samples-extent",
+                              f"{w.duration} input samples -> {len(out)} modulated samples "
+                              f"(rise time {tr}{', eom' if eom else ''}; channel rise time {ch.rise_time})", key))
+        lost = 0.01 * (2 * tr) + 1e-9 * float(np.sum(np.abs(x)))
+        if abs(float(np.sum(out)) - float(np.sum(x))) > lost:
+            fails.append(Fail("modulated-samples-integral",
+                              f"sum {float(np.sum(x))} -> {float(np.sum(out))} (allowed loss {lost}"
+                              f"{', eom' if eom else ''})", key))
         if len(out) != w.duration + start + end:
-            fails.append(Fail("modulated-samples-length", f"{w.duration} + buffers ({start},{end}) -> {len(out)}"))
+            fails.append(Fail("modulated-samples-length",
+                              f"{w.duration} + buffers ({start},{end}) -> {len(out)}{' (eom)' if eom else ''}", key))
         elif not np.array_equal(out, full[tr - start: len(full) - tr + end]):
-            fails.append(Fail("modulated-samples-trim", "modulated_samples is not the documented slice"))
+            fails.append(Fail("modulated-samples-trim", "modulated_samples is not the documented slice", key))
     div = None
-    if drv is not None and len(full) <= MAX_N:
+    if drv is not None and len(full) <= MAX_N and not fails:
         m = decl(drv.ask(f"trim {tr} {start} {end} {encl(full)}").split()[1])
         if not np.array_equal(m, out):
             div = f"trimModulated: model length {len(m)}, real {len(out)}"
@@ -585,7 +600,8 @@ def gen_cases(rng, tier):
                 if cls == "interp" and d < 6:
                     continue
                 for _ in range(mult):
-                    eom_bw = rng.choice([None, None, 20.0, 40.0, 150.0])
+                    # EOM bandwidths both slower and faster than the channel's
+                    eom_bw = rng.choice([None, None, 3.0, 20.0, 40.0, 150.0])
                     eom = bool(eom_bw) and rng.random() < 0.6
                     amp = nonneg_spec(rng, cls, d)
                     yield dict(k="wfmod", bw=bw, eom_bw=eom_bw, eom=eom, wf=W16.gen_spec(rng, cls, d))
